@@ -28,7 +28,7 @@ GXX = ['g++', '-std=c++17', '-O1', '-g', '-w', '-mbmi2', '-D' + GUARD, '-I' + RE
 GCC_TWIN = ['gcc', '-O1', '-fno-strict-aliasing', '-fwrapv', '-w', '-DVERIF_TWIN', '-I' + os.path.join(ROOT, 'rt'),
             '-I' + os.path.join(ROOT, 'harness')]
 CBMC_BASE = ['--unwinding-assertions', '--no-malloc-may-fail', '--drop-unused-functions', '--undefined-shift-check',
-             '--signed-overflow-check', '--no-array-field-sensitivity', '--trace']
+             '--signed-overflow-check', '--trace']
 STUBS = [
     'operator new = malloc + assume non-NULL (allocation failure out of scope; --no-malloc-may-fail); operator delete = free',
     '__cxa_throw/begin_catch/end_catch/rethrow, landingpad, resume = pending flag + type id (fixed std::exception subclass table)',
@@ -164,7 +164,7 @@ def profile_bounds(job, wd, inputs, cfiles, inc, dfl):
     seen = {}; picks = []
     for vals, outs in inputs:
         if outs not in seen: seen[outs] = 1; picks.append(vals)
-        if len(picks) >= job.get('profile_samples', 6): break
+        if len(picks) >= job.get('profile_samples', 12): break
     mx = {}
     def one(vals):
         cmd = ['cbmc'] + cfiles + inc + dfl + ['-DVERIF_FIXED=' + ','.join('%dULL' % v for v in vals), '--unwind', '24', '--no-malloc-may-fail', '--drop-unused-functions',
@@ -175,7 +175,7 @@ def profile_bounds(job, wd, inputs, cfiles, inc, dfl):
         for m in re.finditer(r'Unwinding loop (\S+) iteration (\d+)', out):
             loc[m.group(1)] = max(loc.get(m.group(1), 0), int(m.group(2)))
         return loc
-    with cf.ThreadPoolExecutor(max_workers=3) as ex:
+    with cf.ThreadPoolExecutor(max_workers=4) as ex:
         for loc in ex.map(one, picks):
             for k, v in loc.items(): mx[k] = max(mx.get(k, 0), v)
     return mx
